@@ -268,7 +268,11 @@ func gen(r *hx.Rand, n int, tier string, emit func(string), st *hx.Stats) {
 		if sc.pre != nil {
 			emit(encodeHigherCase(hx.Pick(r2(r, i+1), []int{1, 3, 10}), sc, ts))
 		} else {
-			emit(encodeCase("std", hx.Pick(r2(r, i+1), []int{1, 1, 3, 10}), sc.m, ts, sc.tuples, sc.ctxT, sc.rq))
+			br := hx.Pick(r2(r, i+1), []int{1, 1, 3, 10})
+			if sc.kind == "wide" {
+				br = 1
+			}
+			emit(encodeCase("std", br, sc.m, ts, sc.tuples, sc.ctxT, sc.rq))
 		}
 		st.Inc("shape:" + sc.kind)
 	}
